@@ -135,7 +135,7 @@ func init() {
 			return nil, nil
 		}
 		if in.pos >= len(in.prefix) {
-			if in.check(c) == sym.Unsat {
+			if in.checkSliced(c) == sym.Unsat {
 				panic(pathEnd{"assume-false"})
 			}
 		}
